@@ -109,6 +109,9 @@ Definition c11_check (kind : N) (L : layout) (f : fault) (want : N) (forced : bo
   forallb (fun v => snd v =? c10_tag 0 (fst v)) calls &&
   is_prefix blk_eqb blocks el &&
   linkedb 0 blocks &&
+  (* a handler call that failed is the cause, whatever else (e.g. the stop block) came with it *)
+  let failed_call := match f with FHandler n => negb (kind =? 3) && Nat.ltb n (length calls) | _ => false end in
+  if failed_call then negb forced && (err =? want) && negb (want =? 0) else
   match err with
   | 0 => forced && match rest with [] => true | _ => false end
   | 1 => negb (l_stop L =? 0) && negb forced && forallb (fun b => l_stop L <? b_num b) rest
